@@ -1,0 +1,7 @@
+//go:build verif
+
+package pgdump
+
+// Verification hook (add-only, not compiled in normal builds): alias of the unexported
+// BRIN special-space parser for the external harness (built with -tags verif).
+var VerifParseBRINPageSpecial = parseBRINPageSpecial
